@@ -47,7 +47,7 @@ def rel_paths(maxlen):
 
 def main(run):
     quick = run.tier == "quick"
-    MAXD = 2 if quick else 3
+    MAXD = 2
     MAXREL = 3 if quick else 4
     RELS = rel_paths(MAXREL)
     import itertools
@@ -55,14 +55,14 @@ def main(run):
     SHAPES = [("rel", loc) for loc in LOCATIONS]
     for n_ in range(MAXD + 1):
         for kinds in itertools.product(KINDS, repeat=n_):
-            for loc in LOCATIONS[:2]:
+            for loc in (LOCATIONS[:2] if quick else LOCATIONS):
                 for nm_ in range(3):
                     for win_ in (False, True):
                         SHAPES.append(("mix", loc, nm_, win_, kinds))
     run.bounds = {"dependencies": f"0..{MAXD} dependencies, each any of: libcnb:<symbolic id>, relative path of 1..{MAXREL} components from {REL_ATOMS} "
                                   "(optionally with a doubled and/or trailing separator), absolute path, docker://, https://, urn: with symbolic URI-safe tails",
                   "map": "0..2 entries with symbolic ids as keys (equal or different from the referenced ids - decided by the solver) and symbolic absolute paths as values",
-                  "structure": f"either one relative dependency in every bounded shape at each of {LOCATIONS}, or a mixed descriptor at one of {LOCATIONS[:2]} whose relative dependencies are from {MIXED_RELS}", "platform": "linux | windows"}
+                  "structure": f"either one relative dependency in every bounded shape at each of {LOCATIONS}, or a mixed descriptor at one of {LOCATIONS[:2] if quick else LOCATIONS} whose relative dependencies are from {MIXED_RELS}", "platform": "linux | windows"}
     run.assumptions = ["uriparse::URIReference per mirsym/summ_uri.py (RFC 3986 reference syntax; text, scheme and path preserved)",
                        "symbolic pieces consist of unreserved URI characters [A-Za-z0-9._~-] (plus '/' in paths, no empty segments)"]
     run.outside = ["URIs with query/fragment/percent-escapes", "Windows path prefixes", "reading/writing package.toml (C08/C07) and the copy of buildpack.toml"]
